@@ -24,6 +24,7 @@ func c10(c *Ctx) {
 	c10writer(c)
 	c10caller(c)
 	c10entries(c)
+	workersClamp(c, "C10.R7", "core/mr")
 }
 
 // userDyn: dynamic calls of the user-supplied functions (parameters, captured parameters, struct fields holding them).
